@@ -286,14 +286,31 @@ def is_marker(line):
     return any(m.search(line) for m in MARKER_RES)
 
 
+GLUED = re.compile(r'^(.+?)(<<<<<<< |\|\|\|\|\|\|\| |=======$|>>>>>>> )')
+
+
 def c07_case(b, l, r, merged, decisions):
     out = []
     base, loc, rem, mer = (source_lines(x) for x in (b, l, r, merged))
+    # a conflict marker glued to the end of an input line that had no trailing newline (diff3 does this)
+    glued = {}
+    for ln in mer:
+        m = GLUED.match(ln)
+        if m and not is_marker_start(ln):
+            glued[ln] = m.group(1)
+    present = set(mer) | set(glued.values())
     for side, lines in (('local', loc), ('remote', rem)):
-        lost = [ln for ln in lines - base if ln.strip() and ln not in mer]
+        lost = [ln for ln in lines - base if ln.strip() and ln not in present]
         if lost:
             out.append(('C07', 'dropped:' + side, 'source line(s) added by %s are missing from the merged notebook: %r' % (side, lost[:3])))
     invented = [ln for ln in mer if ln.strip() and ln not in base and ln not in loc and ln not in rem and not is_marker(ln)]
-    if invented:
-        out.append(('C07', 'invented', 'merged source contains line(s) found in no input and not a marker: %r' % invented[:3]))
+    real = [ln for ln in invented if ln not in glued]
+    if real:
+        out.append(('C07', 'invented', 'merged source contains line(s) found in no input and not a marker: %r' % real[:3]))
+    elif invented:
+        out.append(('C07', 'glued-marker', 'a conflict marker is glued to an input line that has no trailing newline: %r' % invented[:2]))
     return out
+
+
+def is_marker_start(line):
+    return any(line.startswith(p) for p in ('<<<<<<<', '=======', '>>>>>>>', '|||||||'))
